@@ -877,6 +877,21 @@ def ep_universal(prog: Program) -> RuleResult:
             f"an iteration can return to the loop head along {cfg.describe([h.id] + (bad or []))} without evaluating the condition for that value: "
             f"rows whose condition fails for a skipped value are returned",
         )
+    # a disjunction answers as soon as one side holds and leaves the variables of the other side unbound: such a result is no verdict for
+    # *all* their values. The candidates for_all keeps are bindings of every free variable of the condition - a partial one is completed
+    # (each value of the missing variables judged on its own) or not taken.
+    fa_ = prog.cls("symbolic.ForAll")
+    gc_ = prog.lookup(fa_.qual, "get_all_candidate_solutions")
+    if gc_ is not None:
+        from ..callgraph import self_closure as _sc
+
+        fs_, _ = _sc(prog, fa_.qual, gc_, False)
+        completes = any(isinstance(c_, ast.Call) and isinstance(c_.func, ast.Attribute) and c_.func.attr == "_evaluate__" and "condition" not in src(c_.func.value) for g_ in fs_ for c_ in ast.walk(g_.node))
+        compares = any(isinstance(t_, ast.If) and "condition_unique_variable_ids" in src(t_.test) for t_ in ast.walk(gc_.node))
+        r.check(completes and compares, "ForAll.get_all_candidate_solutions#partial-results-are-completed", f"{gc_.module.relpath}:{gc_.node.lineno}", "",
+                "a result that leaves a free variable of the condition unbound is completed before it counts as a candidate",
+                "a result of the condition that leaves a free variable unbound (the left-true result of or_(v.n > 1, z.m > 1) has no z) is kept as a candidate for all values of that variable: "
+                "an(entity(z, for_all(v, or_(v.n > 1, z.m > 1)))) over v in {5, 0}, z in {5, 0} returns [5, 0, 5] instead of [5]")
     return r
 
 
